@@ -158,9 +158,10 @@ def source_scan():
     return hits
 
 
-def audit_axioms(module: str, names):
+def audit_axioms(module: str, names, extra_modules=()):
     """#print axioms for every theorem; returns {name: [axioms]} (None if unknown)."""
-    src = "import %s\n" % module + "".join("#print axioms %s\n" % n for n in names)
+    src = "".join("import %s\n" % m for m in [module] + list(extra_modules)) + \
+        "".join("#print axioms %s\n" % n for n in names)
     tmp = LEAN / (".audit_%s_%d.lean" % (module.replace(".", "_"), os.getpid()))
     tmp.write_text(src)
     try:
@@ -344,7 +345,8 @@ def _check(ctx, mod):
         if not ok:
             print(out[-4000:])
             ctx.broken += ["model-build:" + f for f in failing]
-        okp, outp, failingp = lake_build([props_module])
+        extra_modules = list(getattr(mod, "EXTRA_MODULES", []))
+        okp, outp, failingp = lake_build([props_module] + extra_modules)
         if not okp:
             print(outp[-6000:])
             ctx.broken += ["proof:" + f for f in failingp]
@@ -357,7 +359,7 @@ def _check(ctx, mod):
             print("AUDIT-FAILURE: forbidden constructs:\n" + "\n".join(hits))
             return 2
         if okp:
-            ax, aout = audit_axioms(props_module, names + list(extra_obl))
+            ax, aout = audit_axioms(props_module, names + list(extra_obl), extra_modules)
             for n, a in ax.items():
                 if a is None:
                     ctx.broken.append("audit:%s: no #print axioms output" % n)
